@@ -557,15 +557,18 @@ class QuorumSensing:
         prior_permit = 0.5
         prior_block = 0.5
 
-        # Update belief based on each vote
+        # Update belief based on each vote: a vote is evidence for its own
+        # hypothesis (likelihood) and against the other one (1 - likelihood)
         for vote in permit_votes:
             # Higher confidence = more influence
             likelihood = 0.5 + (vote.confidence * 0.4)  # 0.5-0.9
             prior_permit = self._bayesian_update(prior_permit, likelihood, vote.weight)
+            prior_block = self._bayesian_update(prior_block, 1.0 - likelihood, vote.weight)
 
         for vote in block_votes:
             likelihood = 0.5 + (vote.confidence * 0.4)
             prior_block = self._bayesian_update(prior_block, likelihood, vote.weight)
+            prior_permit = self._bayesian_update(prior_permit, 1.0 - likelihood, vote.weight)
 
         # Normalize
         total = prior_permit + prior_block
@@ -574,7 +577,8 @@ class QuorumSensing:
         else:
             posterior_permit = 0.5
 
-        reached = posterior_permit > threshold
+        # The prior alone (no permit vote at all) never carries a proposal
+        reached = posterior_permit > threshold and len(permit_votes) > 0
         decision = VoteType.PERMIT if reached else VoteType.BLOCK
 
         return QuorumResult(
@@ -595,6 +599,8 @@ class QuorumSensing:
         """Apply Bayesian update with weighted evidence."""
         # Weighted likelihood based on agent weight
         adjusted_likelihood = 0.5 + (likelihood - 0.5) * weight
+        # Keep it a probability (weights above 1 would push it past 0 or 1)
+        adjusted_likelihood = min(max(adjusted_likelihood, 0.01), 0.99)
 
         # Bayes' theorem: P(H|E) = P(E|H) * P(H) / P(E)
         # Simplified: just multiply prior by likelihood
